@@ -253,7 +253,8 @@ impl<'tcx> Cx<'tcx> {
         let descend = did.is_local() || {
             let p = self.path(did);
             matches!(p.as_str(), "core::option::Option" | "core::result::Result" | "core::ops::control_flow::ControlFlow"
-                | "core::cmp::Ordering" | "core::ops::range::Range" | "core::marker::PhantomData" | "core::convert::Infallible")
+                | "core::cmp::Ordering" | "core::ops::range::Range" | "core::ops::range::RangeTo" | "core::ops::range::RangeFrom"
+                | "core::ops::range::RangeFull" | "core::ops::range::RangeToInclusive" | "core::marker::PhantomData" | "core::convert::Infallible")
         };
         for (vi, v) in def.variants().iter_enumerated() {
             let mut fields = Vec::new();
